@@ -452,3 +452,44 @@ def every_iteration_reaches(world, fn, fa, link, site_bb, allowed_atom):
     if bad:
         return False, "an iteration reaches the site only under %s" % pa.show(pc)[:200]
     return True, "per iteration: %s" % pa.show(pc)[:200]
+
+
+def some_of(pa, subject_pred):
+    """[(subject, formula `subject is Some`)] for Option-valued subjects satisfying the predicate, whatever the source form
+    (`x.is_some()`, `x.is_none()`, `match x`, `if let Some(..) = x`): the path analysis reads them all as the atom `x is None`."""
+    from .expr import strip_old
+    out = []
+    seen = set()
+    for a in list(pa.bdd.vars):
+        subj = None
+        if isinstance(a, tuple) and a and a[0] == "is" and a[2] in ("None", "Some"):
+            subj = a[1]
+        elif isinstance(a, tuple) and a and a[0] == "call" and (a[1].endswith("Option::<T>::is_some") or a[1].endswith("Option::<T>::is_none")) and a[2]:
+            subj = a[2][0]
+        if subj is None or repr(subj) in seen:
+            continue
+        try:
+            hit = subject_pred(subj) or subject_pred(strip_old(subj))
+        except Exception:
+            hit = False
+        if hit:
+            seen.add(repr(subj))
+            out.append((subj, pa.bdd.NOT(pa.is_atom(("is", subj, "None")))))
+    return out
+
+
+def ok_of(pa, subject_pred):
+    """Like some_of for Result-valued subjects: [(subject, formula `subject is Ok`)]."""
+    from .expr import strip_old
+    out = []
+    seen = set()
+    for a in list(pa.bdd.vars):
+        if isinstance(a, tuple) and a and a[0] == "is" and a[2] in ("Ok", "Err") and repr(a[1]) not in seen:
+            try:
+                hit = subject_pred(a[1]) or subject_pred(strip_old(a[1]))
+            except Exception:
+                hit = False
+            if hit:
+                seen.add(repr(a[1]))
+                out.append((a[1], pa.is_atom(("is", a[1], "Ok"))))
+    return out
